@@ -2,9 +2,13 @@ package main
 
 import (
 	"bytes"
+	"crypto/sha256"
 	"fmt"
+	"os"
+	"path/filepath"
 	"runtime/debug"
 	"sort"
+	"strings"
 	"time"
 
 	"github.com/akrylysov/pogreb"
@@ -290,7 +294,140 @@ func c16Overlong(cfg explore.Config, n int, withMaxValue bool) (msg string) {
 	return ""
 }
 
+// c16Real: admissible sizes on the repository's own file systems (the default one maps files and grows the mapping):
+// after pre small records, Put(key of klen bytes, value of vlen bytes); the value must read back byte-exact at once,
+// after one more small Put, and after a restart; Count and Has agree. A panic or fault is a violation.
+func c16Real(kind string, dir string, pre, klen, vlen int) (msg string) {
+	defer func() {
+		if r := recover(); r != nil {
+			msg = fmt.Sprintf("panic: %v", r)
+		}
+	}()
+	debug.SetPanicOnFault(true)
+	t := &explore.RealTarget{Kind: kind, Dir: dir}
+	t.Clean()
+	defer t.Clean()
+	opts := explore.BIGC.Options(t.FS())
+	db, err := pogreb.Open(dir, opts)
+	if err != nil {
+		return "Open: " + err.Error()
+	}
+	closed := false
+	defer func() {
+		if !closed {
+			_ = db.Close()
+		}
+	}()
+	for i := 0; i < pre; i++ {
+		if err := db.Put([]byte(fmt.Sprintf("pre-key-%d", i)), []byte(fmt.Sprintf("pre-value-%d", i))); err != nil {
+			return "Put: " + err.Error()
+		}
+	}
+	key, val := patBytes(klen, 0x31), patBytes(vlen, 0x77)
+	if err := db.Put(key, val); err != nil {
+		return fmt.Sprintf("Put of an admissible record returned %v", err)
+	}
+	check := func(db *pogreb.DB, when string, wantCount int) string {
+		got, err := db.Get(key)
+		if err != nil {
+			return when + ": Get: " + err.Error()
+		}
+		if !bytes.Equal(got, val) {
+			return fmt.Sprintf("%s: Get returned %d bytes (sha %x), want %d bytes (sha %x)", when, len(got), sha256.Sum256(got), len(val), sha256.Sum256(val))
+		}
+		if ok, err := db.Has(key); err != nil || !ok {
+			return fmt.Sprintf("%s: Has=%v err=%v", when, ok, err)
+		}
+		if n := db.Count(); int(n) != wantCount {
+			return fmt.Sprintf("%s: Count=%d want %d", when, n, wantCount)
+		}
+		n := 0
+		it := db.Items()
+		for {
+			k, v, err := it.Next()
+			if err == pogreb.ErrIterationDone {
+				break
+			}
+			if err != nil {
+				return when + ": Items: " + err.Error()
+			}
+			if bytes.Equal(k, key) {
+				n++
+				if !bytes.Equal(v, val) {
+					return when + ": Items returned a different value for the big record"
+				}
+			}
+		}
+		if n != 1 {
+			return fmt.Sprintf("%s: Items returned the key %d times", when, n)
+		}
+		return ""
+	}
+	if m := check(db, "right after the Put", pre+1); m != "" {
+		return m
+	}
+	if err := db.Put([]byte("one-more"), []byte("x")); err != nil {
+		return "Put: " + err.Error()
+	}
+	if m := check(db, "after one more Put", pre+2); m != "" {
+		return m
+	}
+	closed = true
+	if err := db.Close(); err != nil {
+		return "Close: " + err.Error()
+	}
+	db, err = pogreb.Open(dir, opts)
+	if err != nil {
+		return "reopen: " + err.Error()
+	}
+	closed = false
+	return check(db, "after a restart", pre+2)
+}
+
+func c16RealLayer(c *explore.Ctx) {
+	scratch, err := os.MkdirTemp("/dev/shm", "pogverif-c16-")
+	if err != nil {
+		c.HarnessError("no scratch directory: %v", err)
+	}
+	defer os.RemoveAll(scratch)
+	vlens := []int{0, 65536, 3 << 20, 70 << 20, 130 << 20}
+	if c.Thorough() {
+		vlens = append(vlens, 300<<20)
+	}
+	for _, kind := range []string{"osmmap", "os"} {
+		for _, pre := range []int{0, 2} {
+			for _, vlen := range vlens {
+				if !c.Mine() {
+					continue
+				}
+				if c.Expired() || c.NViolations() > 0 {
+					return
+				}
+				if vlen > 100<<20 && pre != 0 {
+					continue
+				}
+				c.Add("executions", 1)
+				c.Add("round_trips_real_fs", 1)
+				c.Distinct("case", explore.Hash64("real", kind, fmt.Sprint(pre, vlen)))
+				if msg := c16Real(kind, filepath.Join(scratch, fmt.Sprintf("%s-%d-%d", kind, pre, vlen)), pre, 16, vlen); msg != "" {
+					c.Violation(explore.Violation{
+						Key:    fmt.Sprintf("roundtrip-real fs=%s pre=%d vlen=%d", kind, pre, vlen),
+						What:   fmt.Sprintf("fs=%s, %d small records then Put(key of 16 bytes, value of %d bytes): %s", kind, pre, vlen, strings.ReplaceAll(msg, scratch, "<scratch>")),
+						Size:   pre,
+						Replay: map[string]interface{}{"kind": "real16", "fs": kind, "pre": pre, "vlen": vlen, "observed": msg},
+					})
+					return
+				}
+			}
+		}
+	}
+}
+
 func runC16(c *explore.Ctx) {
+	c16RealLayer(c)
+	if c.Expired() || c.NViolations() > 0 {
+		return
+	}
 	klens := []int{0, 1, 2, 255, 256, 65534, 65535}
 	seg1k := explore.Config{Name: "SEG1K", MaxSeg: 1024, MinSeg: 1, MinFrag: 1e-9}
 	cfgs := []explore.Config{explore.BIGC, seg1k}
@@ -370,7 +507,7 @@ func init() {
 		Prop:  "C16",
 		Level: "exploration",
 		Rule: "boundary alphabet: key lengths {0,1,2,255,256,65534,65535} x value lengths {0,1,65535,65536,1 MiB} + the lengths that make the record end at a 512-byte / bufio-window / 64 KiB boundary -5..+1 (so that the length prefix of the following small record straddles it), each put into an empty database and after 1 and 2 small records, under the default segment size and under 1 KiB segments (record larger than the remaining space / than a whole segment): byte-exact Get/GetAppend/Has/scan/Count right after the Put, after recovery of the unclean image, after a clean restart and after deleting the key again. " +
-			"Limits: keys of 65536, 65537 and 65536+n / 131072+n bytes whose first n bytes equal a stored n-byte key AND whose 32-bit hash is forged to equal the stored key's hash (n in {4,8,16,256,65532}): Put must fail and leave file-system image, file list and Count unchanged, Get/GetAppend/Has/Delete must behave as for an absent key; value of MaxValueLength+1 rejected the same way (thorough: exactly MaxValueLength round-trips incl. recovery). distinct_nontrivial = distinct (config, lengths) cases",
+			"Limits: keys of 65536, 65537 and 65536+n / 131072+n bytes whose first n bytes equal a stored n-byte key AND whose 32-bit hash is forged to equal the stored key's hash (n in {4,8,16,256,65532}): Put must fail and leave file-system image, file list and Count unchanged, Get/GetAppend/Has/Delete must behave as for an absent key; value of MaxValueLength+1 rejected the same way (thorough: exactly MaxValueLength round-trips incl. recovery). On the repository's own file systems (fs.OSMMap: mapped files whose mapping grows; fs.OS): values of 0, 64 KiB, 3 MiB, 70 MiB, 130 MiB (thorough: 300 MiB) into an empty database and after 2 small records: byte-exact Get/Has/scan/Count right after the Put, after one more Put and after a restart; a panic or memory fault is a violation. distinct_nontrivial = distinct (config, lengths) cases",
 		Assumptions:   []string{"input enumeration over a stated boundary alphabet: the numeric ranges themselves (2^16 x 2^29) are not exhausted", "content of keys/values is a fixed pattern"},
 		QuickBudget:   100 * time.Second,
 		ThorBudget:    25 * time.Minute,
